@@ -2,6 +2,7 @@ package rules
 
 import (
 	"fmt"
+	"go/token"
 	"regexp"
 	"strings"
 
@@ -250,4 +251,438 @@ func lenGuardSym(s string, use ssa.Instruction) (bool, string) {
 		return true, "on every path a test len(" + pathDesc(s) + ") ≥ 1 precedes with no shrinking store after it"
 	}
 	return false, "some path reaches the call without a test that len(" + pathDesc(s) + ") ≥ 1"
+}
+
+// ---- CURSORPUSH -----------------------------------------------------------------------
+
+func init() {
+	Register(&Rule{
+		ID:    "CURSORPUSH",
+		Props: []string{"C10"},
+		Min:   1,
+		Doc: "the cursor's path is a chain root→…→current node, each entry the child of the one below it: an entry pushed by a Cursor method " +
+			"whose node may be the node of the entry that is currently on top (read from path[len-1].node, possibly through a loop variable) " +
+			"is preceded on every path by a pop of that entry; otherwise the top entry is on the path twice and later steps return to the stale copy.",
+		Run: runCURSORPUSH,
+	})
+}
+
+func isCursorPath(addr ssa.Value) bool {
+	fa, ok := addr.(*ssa.FieldAddr)
+	return ok && ir.IsPtrToNamed(fa.X.Type(), "Cursor") && ir.FieldName(fa.X.Type(), fa.Field) == "path"
+}
+
+// topNodeRead: v is (a load of) the node field of the path's top entry: path[len(path)-1].node,
+// read in place or from a copy of the entry.
+func topNodeRead(v ssa.Value, d int) bool {
+	if d > 6 {
+		return false
+	}
+	v = ir.ResolveCell(v)
+	switch x := v.(type) {
+	case *ssa.UnOp:
+		if x.Op != token.MUL {
+			return false
+		}
+		if fa, ok := x.X.(*ssa.FieldAddr); ok && ir.FieldName(fa.X.Type(), fa.Field) == "node" {
+			// &path[i].node, or &copy.node where copy = path[i]
+			switch b := fa.X.(type) {
+			case *ssa.IndexAddr:
+				if ld, ok := b.X.(*ssa.UnOp); ok && ld.Op == token.MUL && isCursorPath(ld.X) {
+					return true
+				}
+			case *ssa.Alloc:
+				// local copy of an entry: find what was stored into it
+				if b.Referrers() != nil {
+					for _, r := range *b.Referrers() {
+						if st, ok := r.(*ssa.Store); ok && st.Addr == ssa.Value(b) {
+							if ld, ok := st.Val.(*ssa.UnOp); ok && ld.Op == token.MUL {
+								if ia, ok := ld.X.(*ssa.IndexAddr); ok {
+									if l2, ok := ia.X.(*ssa.UnOp); ok && l2.Op == token.MUL && isCursorPath(l2.X) {
+										return true
+									}
+								}
+							}
+						}
+					}
+				}
+			}
+		}
+	case *ssa.Field:
+		// (path[i]).node on a loaded entry value
+		if ir.FieldName(x.X.Type(), x.Field) == "node" {
+			if ld, ok := x.X.(*ssa.UnOp); ok && ld.Op == token.MUL {
+				if ia, ok := ld.X.(*ssa.IndexAddr); ok {
+					if l2, ok := ia.X.(*ssa.UnOp); ok && l2.Op == token.MUL && isCursorPath(l2.X) {
+						return true
+					}
+				}
+			}
+		}
+	}
+	return false
+}
+
+func mayBeTopNode(v ssa.Value, seen map[ssa.Value]bool) bool {
+	if seen[v] {
+		return false
+	}
+	seen[v] = true
+	if topNodeRead(v, 0) {
+		return true
+	}
+	switch x := ir.ResolveCell(v).(type) {
+	case *ssa.Phi:
+		for _, e := range x.Edges {
+			if mayBeTopNode(e, seen) {
+				return true
+			}
+		}
+	}
+	return false
+}
+
+func runCURSORPUSH(c *Ctx) {
+	P := c.P
+	n := 0
+	for _, fn := range P.Funcs {
+		if fn.Pkg.Pkg.Path() != ir.MastPath || fn.Signature.Recv() == nil || !ir.IsPtrToNamed(fn.Signature.Recv().Type(), "Cursor") {
+			continue
+		}
+		var isPop func(i ssa.Instruction) bool
+		isPop = func(i ssa.Instruction) bool {
+			if call, ok := i.(*ssa.Call); ok {
+				// c.pop(): a Cursor helper that pops on every path
+				if h := ir.Callee(call.Call); h != nil && h != fn && h.Blocks != nil && h.Signature.Recv() != nil && ir.IsPtrToNamed(h.Signature.Recv().Type(), "Cursor") {
+					return allReturnsPass(h, func(j ssa.Instruction) bool {
+						if _, isCall := j.(*ssa.Call); isCall {
+							return false
+						}
+						return isPop(j)
+					})
+				}
+				return false
+			}
+			st, ok := i.(*ssa.Store)
+			if !ok || !isCursorPath(st.Addr) {
+				return false
+			}
+			sl, ok := st.Val.(*ssa.Slice)
+			if !ok || sl.High == nil {
+				return false
+			}
+			// path[:len(path)-1] (or a shorter prefix computed from it)
+			if bin, ok := sl.High.(*ssa.BinOp); ok && bin.Op == token.SUB {
+				if k, isK := ir.ConstInt(bin.Y); isK && k >= 1 {
+					return true
+				}
+			}
+			return false
+		}
+		for _, b := range fn.Blocks {
+			for _, ins := range b.Instrs {
+				call, ok := ins.(*ssa.Call)
+				if !ok {
+					continue
+				}
+				if bi, ok := call.Call.Value.(*ssa.Builtin); !ok || bi.Name() != "append" || len(call.Call.Args) != 2 {
+					continue
+				}
+				ld, ok := call.Call.Args[0].(*ssa.UnOp)
+				if !ok || ld.Op != token.MUL || !isCursorPath(ld.X) {
+					continue
+				}
+				// the node field of the pushed entry
+				sl, ok := call.Call.Args[1].(*ssa.Slice)
+				if !ok {
+					continue
+				}
+				arr, ok := sl.X.(*ssa.Alloc)
+				if !ok || arr.Referrers() == nil {
+					continue
+				}
+				var pushed []ssa.Value
+				for _, r := range *arr.Referrers() {
+					ia, ok := r.(*ssa.IndexAddr)
+					if !ok || ia.Referrers() == nil {
+						continue
+					}
+					for _, r2 := range *ia.Referrers() {
+						switch y := r2.(type) {
+						case *ssa.FieldAddr:
+							if ir.FieldName(y.X.Type(), y.Field) == "node" && y.Referrers() != nil {
+								for _, r3 := range *y.Referrers() {
+									if st, ok := r3.(*ssa.Store); ok && st.Addr == ssa.Value(y) {
+										pushed = append(pushed, st.Val)
+									}
+								}
+							}
+						case *ssa.Store:
+							// whole entry stored: a struct value; its node is not tracked here
+							if y.Addr == ssa.Value(ia) {
+								// the entry is a composite literal built in a local and copied in: its node field
+								if ld, ok := y.Val.(*ssa.UnOp); ok && ld.Op == token.MUL {
+									if lit, ok := ld.X.(*ssa.Alloc); ok && lit.Referrers() != nil {
+										for _, r3 := range *lit.Referrers() {
+											if fa, ok := r3.(*ssa.FieldAddr); ok && ir.FieldName(fa.X.Type(), fa.Field) == "node" && fa.Referrers() != nil {
+												for _, r4 := range *fa.Referrers() {
+													if st, ok := r4.(*ssa.Store); ok && st.Addr == ssa.Value(fa) {
+														pushed = append(pushed, st.Val)
+													}
+												}
+											}
+										}
+									}
+								}
+							}
+						}
+					}
+				}
+				for _, pv := range pushed {
+					if !isNodePtr(pv.Type()) {
+						continue
+					}
+					n++
+					what := fmt.Sprintf("push of node %s onto the cursor path in %s", pathDesc(ir.Sym(pv)), ir.FuncName(fn))
+					if !mayBeTopNode(pv, map[ssa.Value]bool{}) {
+						c.OK(P.InstrPos(call), what, "the node is a freshly followed child, never the current top entry's node", false)
+						continue
+					}
+					if ir.MustPass(call, isPop) {
+						c.OK(P.InstrPos(call), what, "may be the top entry's node, and that entry is popped on every path before the push", false)
+					} else {
+						c.Violation(fn, P.InstrPos(call), "top entry pushed again without being popped",
+							"the pushed node can be the node of the entry already on top of the path: the path then holds it twice, and a later Forward/Backward that pops one copy continues from the stale one (keys are revisited or skipped)")
+					}
+				}
+			}
+		}
+	}
+	if n == 0 {
+		c.AnchorMissing("pushes onto Cursor.path")
+	}
+}
+
+// ---- PATHINDEX -----------------------------------------------------------------------
+//
+// A path entry's position li satisfies 0 ≤ li ≤ len(Key) = len(Value) = len(Link)-1 (it names a key, or the
+// slot after the last key). Indexing with li+k is in range for Link when k = 0; every other use needs a test.
+// All quantities are compared through "<" with lengths, so the analysis is a one-variable bound:
+// a fact li+a < len(F) gives li ≤ n + δF − a − 1 (n = len(Key), δLink = 1, δKey = δValue = 0), and the use
+// X[li+k] needs li ≤ n + δX − k − 1.
+
+func init() {
+	Register(&Rule{
+		ID:    "PATHINDEX",
+		Props: []string{"C10"},
+		Min:   6,
+		Doc: "in the Cursor methods (String excepted), every index into a node's Key/Value/Link computed from a path entry's position (linkIndex + k) is in range on every path: " +
+			"by the entry invariant 0 ≤ linkIndex ≤ len(Key) = len(Link)-1 alone (Link[linkIndex]), or by a test of linkIndex(+a) against a length of the same node that is still valid at the use (must-dataflow; a store to any linkIndex kills it); k < 0 needs linkIndex ≥ -k.",
+		Run: runPATHINDEX,
+	})
+}
+
+// liPlusK: v = load(X.linkIndex) + k.
+func liPlusK(v ssa.Value) (li *ssa.UnOp, k int64, ok bool) {
+	v = ir.ResolveCell(v)
+	if bin, isBin := v.(*ssa.BinOp); isBin && (bin.Op == token.ADD || bin.Op == token.SUB) {
+		if c, isC := ir.ConstInt(bin.Y); isC {
+			l, k0, ok := liPlusK(bin.X)
+			if !ok {
+				return nil, 0, false
+			}
+			if bin.Op == token.SUB {
+				c = -c
+			}
+			return l, k0 + c, true
+		}
+		return nil, 0, false
+	}
+	ld, isLd := v.(*ssa.UnOp)
+	if !isLd || ld.Op != token.MUL {
+		return nil, 0, false
+	}
+	fa, isFA := ld.X.(*ssa.FieldAddr)
+	if !isFA || ir.FieldName(fa.X.Type(), fa.Field) != "linkIndex" {
+		return nil, 0, false
+	}
+	return ld, 0, true
+}
+
+// lenOfNodeSlice: v = len(N.Key|Value|Link): the node value N (cells resolved) and δ.
+func lenOfNodeSlice(v ssa.Value) (node string, delta int64, ok bool) {
+	call, isCall := ir.ResolveCell(v).(*ssa.Call)
+	if !isCall {
+		return "", 0, false
+	}
+	if b, isB := call.Call.Value.(*ssa.Builtin); !isB || b.Name() != "len" {
+		return "", 0, false
+	}
+	base, f, ok := nodeSliceRoot(call.Call.Args[0])
+	if !ok {
+		return "", 0, false
+	}
+	d := int64(0)
+	if f == "Link" {
+		d = 1
+	}
+	return ir.Sym(ir.ResolveCell(base)), d, true
+}
+
+func runPATHINDEX(c *Ctx) {
+	P := c.P
+	n := 0
+	for _, fn := range P.Funcs {
+		if fn.Pkg.Pkg.Path() != ir.MastPath || fn.Signature.Recv() == nil || !ir.IsPtrToNamed(fn.Signature.Recv().Type(), "Cursor") || fn.Name() == "String" {
+			continue
+		}
+		for _, b := range fn.Blocks {
+			for _, ins := range b.Instrs {
+				ia, ok := ins.(*ssa.IndexAddr)
+				if !ok {
+					continue
+				}
+				base, f, ok := nodeSliceRoot(ia.X)
+				if !ok {
+					continue
+				}
+				li, k, ok := liPlusK(ia.Index)
+				if !ok {
+					continue
+				}
+				n++
+				nodeSym := ir.Sym(ir.ResolveCell(base))
+				liSym := ir.Sym(li)
+				deps := ir.LoadDeps(li)
+				dU := int64(0)
+				if f == "Link" {
+					dU = 1
+				}
+				need := dU - k - 1 // li ≤ n + need
+				pos := P.InstrPos(ia)
+				what := fmt.Sprintf("%s.%s[%s%+d] in %s", pathDesc(nodeSym), f, pathDesc(liSym), k, ir.FuncName(fn))
+				kills := func(i ssa.Instruction) bool {
+					st, ok := i.(*ssa.Store)
+					if !ok {
+						return false
+					}
+					as := ir.Sym(st.Addr)
+					return strings.HasSuffix(as, ".linkIndex") || ir.MayClobber(as, deps)
+				}
+				upperOK := need >= 0
+				if !upperOK {
+					upperOK = ir.FlowFact(ia, func(fc ir.Fact) bool {
+						bin, ok := fc.Cond.(*ssa.BinOp)
+						if !ok {
+							return false
+						}
+						// normalise to  L REL len  with L = li + a
+						x, y, op := bin.X, bin.Y, bin.Op
+						if _, _, isLen := lenOfNodeSlice(x); isLen {
+							x, y = y, x
+							switch op {
+							case token.LSS:
+								op = token.GTR
+							case token.GTR:
+								op = token.LSS
+							case token.LEQ:
+								op = token.GEQ
+							case token.GEQ:
+								op = token.LEQ
+							}
+						}
+						l2, a, ok := liPlusK(x)
+						if !ok || ir.Sym(l2) != liSym {
+							return false
+						}
+						nd, dF, ok := lenOfNodeSlice(y)
+						if !ok || nd != nodeSym {
+							return false
+						}
+						if !fc.Truth {
+							switch op {
+							case token.LSS:
+								op = token.GEQ
+							case token.GEQ:
+								op = token.LSS
+							case token.LEQ:
+								op = token.GTR
+							case token.GTR:
+								op = token.LEQ
+							case token.EQL:
+								op = token.NEQ
+							case token.NEQ:
+								op = token.EQL
+							}
+						}
+						var bound int64
+						switch op {
+						case token.LSS: // li + a < n + dF
+							bound = dF - a - 1
+						case token.LEQ:
+							bound = dF - a
+						case token.NEQ: // li + a ≠ n + dF, and li ≤ n: excludes the top value only when dF - a == 0
+							if dF-a != 0 {
+								return false
+							}
+							bound = -1
+						default:
+							return false
+						}
+						return bound <= need
+					}, kills)
+				}
+				lowerOK := k >= 0
+				if !lowerOK {
+					lowerOK = ir.FlowFact(ia, func(fc ir.Fact) bool {
+						bin, ok := fc.Cond.(*ssa.BinOp)
+						if !ok {
+							return false
+						}
+						l2, a, ok := liPlusK(bin.X)
+						cst, isC := ir.ConstInt(bin.Y)
+						if !ok || !isC || ir.Sym(l2) != liSym {
+							return false
+						}
+						op := bin.Op
+						if !fc.Truth {
+							switch op {
+							case token.LEQ:
+								op = token.GTR
+							case token.LSS:
+								op = token.GEQ
+							case token.EQL:
+								op = token.NEQ
+							default:
+								return false
+							}
+						}
+						switch op {
+						case token.GTR: // li + a > cst  ⇒ li ≥ cst - a + 1
+							return cst-a+1 >= -k
+						case token.GEQ:
+							return cst-a >= -k
+						case token.NEQ: // li ≠ 0 with li ≥ 0
+							return cst-a == 0 && -k <= 1
+						}
+						return false
+					}, kills)
+				}
+				switch {
+				case upperOK && lowerOK && need >= 0 && k >= 0:
+					c.OK(pos, what, "in range by the entry invariant 0 ≤ linkIndex ≤ len(Key) = len(Link)-1", false)
+				case upperOK && lowerOK:
+					c.OK(pos, what, "a test against the node's length (or against 0) holds on every path to the use", false)
+				case !upperOK:
+					c.Violation(fn, pos, fmt.Sprintf("%s[linkIndex%+d] not known to be in range", f, k),
+						"the position may name the slot after the last key (linkIndex = len(Key)); without a test against the node's length this index panics, e.g. on a key-less root (empty tree) or at the right edge of a node")
+				default:
+					c.Violation(fn, pos, fmt.Sprintf("%s[linkIndex%+d] may be negative", f, k), "no test establishes linkIndex ≥ the subtracted constant on every path")
+				}
+			}
+		}
+	}
+	if n == 0 {
+		c.AnchorMissing("indexing by a path entry's position in the Cursor methods")
+	}
 }
